@@ -1,9 +1,10 @@
 package main
 
 import (
-	"os"
 	"fmt"
 	"go/token"
+	"go/types"
+	"os"
 	"sort"
 	"strings"
 
@@ -424,6 +425,17 @@ func c08Stores(c *Ctx, p *Prog, m *Model) {
 					if isBuiltinCall(x, "delete") || isBuiltinCall(x, "clear") {
 						probs = append(probs, fmt.Sprintf("delete/clear at %s", p.Pos(instrPos(x))))
 					}
+					if mn := invokeName(x); mn != "" && mn != "Key" && mn != "Value" {
+						// a mutating method of the attribute interface: the attribute objects of a record are the very
+						// objects held by the logger, its ancestors and the caller's slices
+						if it, ok := x.Common().Value.Type().Underlying().(*types.Interface); ok && hasMethods(it, "Key", "Value") {
+							if _, fresh := stripNoIface(x.Common().Value).(*ssa.Alloc); !fresh {
+								if impl := mutatingImpl(p, mn); impl != "" {
+									probs = append(probs, fmt.Sprintf("calls %s on an attribute of the record at %s (%s stores to its receiver): the attribute object is the one held by the logger, an ancestor or the caller, so one record rewrites what other records and other loggers print", mn, p.Pos(instrPos(x)), impl))
+								}
+							}
+						}
+					}
 					if call, isCall := x.(*ssa.Call); isCall && isBuiltinCall(x, "append") {
 						// append writes into the spare capacity of its first argument: a list held by a logger, handler or
 						// group (directly, or handed in by the caller on the print path) must be copied first
@@ -748,4 +760,35 @@ func underLock(in ssa.Instruction) bool {
 		}
 	}
 	return false
+}
+
+func hasMethods(it *types.Interface, names ...string) bool {
+	for _, n := range names {
+		found := false
+		for i := 0; i < it.NumMethods(); i++ {
+			if it.Method(i).Name() == n {
+				found = true
+			}
+		}
+		if !found {
+			return false
+		}
+	}
+	return true
+}
+
+// mutatingImpl: the name of a method called mn, declared in the logging package, that stores to a field of its receiver.
+func mutatingImpl(p *Prog, mn string) string {
+	for _, fn := range p.RepoFuncs() {
+		if fn.Pkg != p.Slog || fn.Signature.Recv() == nil || fn.Name() != mn || fn.Synthetic != "" {
+			continue
+		}
+		rc := receiver(fn)
+		for _, fs := range fieldStores(fn) {
+			if rc != nil && strip(fs.Base) == ssa.Value(rc) {
+				return shortName(fn)
+			}
+		}
+	}
+	return ""
 }
